@@ -15,7 +15,7 @@ static int tokens(char *s, const char *sep, char *tok[20]) {
     for (;;) { tok[n++] = p; char *q = strstr(p, sep); if (!q || n >= 20) break; *q = 0; p = q + sl; }
     return n;
 }
-static void one_A(int si, int li, unsigned A, struct res *r, long x) {
+static void one_A(int si, int li, unsigned A, struct res *r, long x, int full) {
     const polyseed_lang *lang = polyseed_get_lang(li);
     /* the same abstract seed through load or, for every fourth coin, through create with argument bits above the three feature bits set
      * (documented as ignored) plus crypt with a zero mask for the encrypted flag */
@@ -45,7 +45,9 @@ static void one_A(int si, int li, unsigned A, struct res *r, long x) {
         if (bad) { sprintf(rep, "case %s %u %u %d %u %u", h, SEEDS[si].birthday, SEEDS[si].features, li, A, A); snprintf(key, sizeof key, "c05:worddiff:%s", RL[li].code); res_viol(r, key, rep, "phrases for coin %u and coin 0 do not differ in exactly the second word (%d)", A, bad); }
         else { r->validated++; r->cls[2]++; }
     }
-    for (unsigned B = 0; B < 2048; B++) {
+    /* full: every B; otherwise A itself and five neighbours (every list word still appears as the second word of a phrase that must decode for its own coin) */
+    for (unsigned Bi = 0; Bi < (full ? 2048u : 6u); Bi++) {
+        unsigned B = full ? Bi : Bi == 0 ? A : Bi == 1 ? (A ^ 1) : Bi == 2 ? (A ^ 1024) : Bi == 3 ? ((A + 1) & 2047) : Bi == 4 ? (A ^ 2047) : ((A * 29 + 7) & 2047); if (!full && Bi && B == A) continue;
         polyseed_data *d = NULL;
         int st = polyseed_decode_explicit(phA, (polyseed_coin)B, lang, &d); r->calls++; r->cases++;
         r->digest ^= mix64((uint64_t)x * 2048 + B, st);
@@ -79,14 +81,14 @@ static void one_A(int si, int li, unsigned A, struct res *r, long x) {
     polyseed_free(s);
     if (ledger_live()) { res_viol(r, "c05:leak", "", "ledger not empty"); ledger_drop_all(); }
 }
-struct job { int si, li; unsigned A; };
+struct job { int si, li; unsigned A; int full; };
 static struct job *JOBS; static long NJ;
 static void work(long lo, long hi, struct res *r, void *arg) {
     (void)arg;
     for (long x = lo; x < hi; x++) {
         if (past_deadline()) { r->timed_out = 1; return; }
         extern char *G_cur; if (G_cur) sprintf(G_cur, "job seed=%d lang=%d A=%u", JOBS[x].si, JOBS[x].li, JOBS[x].A);
-        one_A(JOBS[x].si, JOBS[x].li, JOBS[x].A, r, x);
+        one_A(JOBS[x].si, JOBS[x].li, JOBS[x].A, r, x, JOBS[x].full);
     }
     if (r->nsample < 1 && lo < hi) res_sample(r, "seed #%d lang=%s: phrase for coin A=%u decoded for every B in 0..2047", JOBS[lo].si, RL[JOBS[lo].li].code, JOBS[lo].A);
 }
@@ -103,7 +105,7 @@ int main(int argc, char **argv) {
         polyseed_encode(sd, polyseed_get_lang(li), A, ph); polyseed_encode(sd, polyseed_get_lang(li), 0, ph0);
         int st = polyseed_decode_explicit(ph, B, polyseed_get_lang(li), &d);
         printf("coin %u: %s\ncoin 0: %s\ndecode for coin %u -> %d\n", A, ph, ph0, B, st);
-        SEEDS[0] = s; NS = 1; one_A(0, li, A, r, 0);
+        SEEDS[0] = s; NS = 1; one_A(0, li, A, r, 0, 1);
         for (int i = 0; i < r->nviol; i++) printf("REPRODUCED %s: %s\n", r->v[i].key, r->v[i].msg);
         return r->nviol ? 1 : 0;
     }
@@ -128,17 +130,18 @@ int main(int argc, char **argv) {
             if (RL[2].wlen[c0] == mx) { c[0] = c0; ref_from_coeffs(c, &SEEDS[NS]); KO_EXTREMAL = NS; KO_C1 = c[1]; NS++; break; }
         }
     }
-    JOBS = malloc(sizeof(struct job) * (NS + 1) * R_NLANG * 2048);
+    JOBS = malloc(sizeof(struct job) * (NS + 1) * R_NLANG * (2048 + 2048 + 32));
     for (int si = 0; si < NS; si++) for (int li = 0; li < R_NLANG; li++) {
-        if (si == KO_EXTREMAL) { if (li == 2) { size_t mx = 0; for (unsigned i = 0; i < R_NW; i++) if (RL[2].wlen[i] > mx) mx = RL[2].wlen[i]; for (unsigned A = 0; A < 2048; A++) if (RL[2].wlen[KO_C1 ^ A] == mx) JOBS[NJ++] = (struct job){ si, li, A }; } continue; }
+        if (si == KO_EXTREMAL) { if (li == 2) { size_t mx = 0; for (unsigned i = 0; i < R_NW; i++) if (RL[2].wlen[i] > mx) mx = RL[2].wlen[i]; for (unsigned A = 0; A < 2048; A++) if (RL[2].wlen[KO_C1 ^ A] == mx) JOBS[NJ++] = (struct job){ si, li, A, 1 }; } continue; }
         int all = LANG_A_ALL[li] && (li == 0 || si < 2);
         if (li >= 8 && si >= 2) continue;       /* Chinese (linear search): two seeds */
-        if (all) for (unsigned A = 0; A < 2048; A++) JOBS[NJ++] = (struct job){ si, li, A };
-        else for (int i = 0; i < 32; i++) JOBS[NJ++] = (struct job){ si, li, A_SUBSET[i] };
+        if (all) for (unsigned A = 0; A < 2048; A++) JOBS[NJ++] = (struct job){ si, li, A, 1 };
+        else { for (int i = 0; i < 32; i++) JOBS[NJ++] = (struct job){ si, li, A_SUBSET[i], 1 };
+               if (si < 2) for (unsigned A = 0; A < 2048; A++) JOBS[NJ++] = (struct job){ si, li, A, 0 }; }      /* every A, a handful of B */
     }
     out_begin();
     par_run(NJ, work, NULL, r);
-    out_part("ordered coin pairs (A encodes, B decodes)", r, CLS, "English: all 2048 x 2048 pairs per seed; other languages: 32 values of A (quick) or all A (thorough, sorted lists) x all B");
+    out_part("ordered coin pairs (A encodes, B decodes)", r, CLS, "English: all 2048 x 2048 pairs per seed; other languages: 32 values of A (quick) or all A (thorough, sorted lists) x all B, and every A x {A, five other B}");
     out_kv_int("seeds", NS); out_kv_int("jobs_A", NJ);
     out_end();
     return 0;
